@@ -116,15 +116,17 @@ static void do_cc(Case &c, Rig &r, Ctl &k, int ctl, int val)
     API("opn2_rt_controllerChange", opn2_rt_controllerChange(r.dev, (uint8_t)k.ch, (uint8_t)ctl, (uint8_t)val));
     after_call(c, r, k, ctl == 7 ? "CC7" : ctl == 11 ? "CC11" : "CC74");
 }
+// LSB of the 14-bit master volume, fixed per case so that the MSB orders the values of one case; exact zero is sent as 00 00
+static int g_master_lsb = 0;
 static bool do_master(Case &c, Rig &r, Ctl &k, int val)
 {
-    uint8_t msg[8] = {0xF0, 0x7F, 0x7F, 0x04, 0x01, 0x00, (uint8_t)val, 0xF7};
+    uint8_t msg[8] = {0xF0, 0x7F, 0x7F, 0x04, 0x01, (uint8_t)(val == 0 ? 0 : g_master_lsb), (uint8_t)val, 0xF7};
     ExactBuf eb(msg, sizeof(msg));
     int rc = 0;
     k.master = val;
     API("opn2_rt_systemExclusive", rc = opn2_rt_systemExclusive(r.dev, eb.p, eb.n));
     after_call(c, r, k, "master-volume SysEx");
-    if(rc != 1) { c.violation("oracle:C11:master-volume-sysex-rejected", vfmt("F0 7F 7F 04 01 00 %02X F7 returned %d", val, rc)); return false; }
+    if(rc != 1) { c.violation("oracle:C11:master-volume-sysex-rejected", vfmt("F0 7F 7F 04 01 %02X %02X F7 returned %d", msg[5], val, rc)); return false; }
     return true;
 }
 static bool do_note(Case &c, Rig &r, Ctl &k, int vel)
@@ -217,6 +219,7 @@ static void stage_cube(Case &c)
     Ctl k; memset(&k, 0, sizeof(k));
     k.model = model; k.alg = alg; k.scaling = 0; k.fullrange = (int)rng.below(2);
     k.ch = (int)rng.below(9); k.key = rng.range(24, 96); k.cch = -1; k.cc7 = 100; k.cc11 = 127; k.master = 127; k.bright = 127;
+    g_master_lsb = rng.chance(0.4) ? 0 : (int)rng.pick((const int[]){0x40, 0x7F, 0x3F, 0x01, 0x55});
     gen_tl(rng, alg, k.own);
     int program = (int)rng.below(128);
     if(!put_ins(c, r, false, (unsigned)program, alg, (int)rng.below(8), k.own)) return;
@@ -322,6 +325,7 @@ static void stage_config(Case &c)
     Ctl k; memset(&k, 0, sizeof(k));
     k.model = model; k.alg = alg; k.scaling = scaling; k.fullrange = fullrange;
     k.ch = perc ? 9 : (int)rng.below(9); k.key = rng.range(24, 96); k.cch = -1; k.cc7 = 100; k.cc11 = 127; k.master = 127; k.bright = 127;
+    g_master_lsb = rng.chance(0.4) ? 0 : (int)rng.pick((const int[]){0x40, 0x7F, 0x3F, 0x01, 0x55});
     gen_tl(rng, alg, k.own);
     int program = (int)rng.below(128);
     if(!put_ins(c, r, perc != 0, perc ? (unsigned)k.key : (unsigned)program, alg, (int)rng.below(8), k.own)) return;
